@@ -91,8 +91,10 @@ class Lists(object):
       return
     with open(path, 'w') as f:
       f.write(''.join(l + '\n' for l in lines))
-    Lists._tick[0] += 10
-    os.utime(path, (Lists._tick[0], Lists._tick[0]))
+    # strictly increasing, but by a fraction of a second: an implementation that compares whole seconds would
+    # miss an edit made within the same second as the previous load
+    Lists._tick[0] += 0.25
+    os.utime(path, ns=(int(Lists._tick[0] * 1e9), int(Lists._tick[0] * 1e9)))
 
   def load(self, wlines, blines):
     self.write(self.wpath, wlines)
